@@ -30,6 +30,7 @@ import Driver.ExK
 import Driver.Keys
 import Driver.C18R
 import Driver.CK
+import Driver.C14Tok
 /-!
 Line-protocol driver `jsight-model` (DESIGN.md §12). One request per line on stdin, one reply per
 line on stdout. Core Lean only: nothing imported here may import Mathlib (the executable would
@@ -214,6 +215,9 @@ def handle (line : String) : String :=
   | "skey" :: r => Drv.Keys.skey r
   | "ekey" :: r => Drv.Keys.ekey r
   | "skeys" :: r => Drv.Keys.skeys r
+  | "stok" :: r => Drv.C14Tok.handle r
+  | "stoke" :: r => Drv.C14Tok.handleE r
+  | "stokx" :: r => Drv.C14Tok.handleX r
   | "ekeys" :: r => Drv.Keys.ekeys r
   | "unq" :: r => hexOf (Unquote.unquote (unhex (r.headD "")))
   | ["rend", hx, idx] =>
